@@ -213,6 +213,54 @@ mod __verif_c21 {
         kani::cover!(n == 48);
     }
 
+    fn feed_f64(acc: &mut AccumulatorState, x: Option<i16>, slow: bool) {
+        match (x, slow) {
+            (Some(v), false) => acc.update_f64(v as f64),
+            (None, false) => {}
+            (Some(v), true) => {
+                let sv = ScalarValue::Float64(ordered_float::OrderedFloat(v as f64));
+                acc.update(&sv);
+                std::mem::forget(sv);
+            }
+            (None, true) => {
+                let sv = ScalarValue::Null;
+                acc.update(&sv);
+                std::mem::forget(sv);
+            }
+        }
+    }
+
+    // @harness tiers=experimental timeout=2400
+    // @encodes physical::morsel_agg::AccumulatorState::new, physical::morsel_agg::AccumulatorState::update, physical::morsel_agg::AccumulatorState::update_f64, physical::morsel_agg::AccumulatorState::merge, physical::morsel_agg::AccumulatorState::finalize, physical::morsel_agg::scalar_to_f64
+    // @bounds SUM over 3 DOUBLE inputs, each NULL or an integer-valued double |x| < 2^15 (so every partial sum is exact and order-independent), any morsel boundary, typed fast path or ScalarValue slow path (on which NULLs reach the accumulator)
+    // @oracle SUM = NULL iff no non-NULL input (never 0.0), else the exact sum
+    #[kani::proof]
+    #[kani::unwind(2)]
+    fn sum_of_doubles_ignores_nulls() {
+        let x: [Option<i16>; 3] = [kani::any(), kani::any(), kani::any()];
+        let split: usize = kani::any();
+        kani::assume(split <= 3);
+        let slow: bool = kani::any();
+        let func = AggregateFunction::Sum;
+        let mut left = AccumulatorState::new(&func, &DataType::Float64);
+        let mut right = AccumulatorState::new(&func, &DataType::Float64);
+        if 0 < split { feed_f64(&mut left, x[0], slow) } else { feed_f64(&mut right, x[0], slow) }
+        if 1 < split { feed_f64(&mut left, x[1], slow) } else { feed_f64(&mut right, x[1], slow) }
+        if 2 < split { feed_f64(&mut left, x[2], slow) } else { feed_f64(&mut right, x[2], slow) }
+        left.merge(&right);
+        let out = left.finalize(&func);
+        let cnt = x[0].is_some() as i32 + x[1].is_some() as i32 + x[2].is_some() as i32;
+        let sum = x[0].unwrap_or(0) as i32 + x[1].unwrap_or(0) as i32 + x[2].unwrap_or(0) as i32;
+        kani::cover!(cnt == 0 && slow);
+        kani::cover!(cnt == 2);
+        if cnt == 0 {
+            assert!(matches!(out, ScalarValue::Null), "C21.sum_of_doubles_with_no_non_null_is_null");
+        } else {
+            assert!(matches!(out, ScalarValue::Float64(v) if v.into_inner() == sum as f64), "C21.sum_of_doubles_is_exact_over_non_null");
+        }
+        std::mem::forget((left, right, out));
+    }
+
     // @harness tiers=quick,thorough
     // @encodes physical::morsel_agg::AggregationState::slot_has_data
     // @bounds keys of 0..=2 columns, each NULL or BIGINT; 0..=2 accumulators in their initial state (a group whose aggregated inputs were all NULL)
